@@ -54,8 +54,10 @@ def gen_tables(rng, tier, seed):
             ops.append(['refused', link, rng.randrange(2), 'classic' if classic else rng.choice(['le_coc', 'ecbfc'])])
         elif r < 0.80:
             ops.append(['data', rng.randrange(8), rng.randrange(2), rng.choice([1, 10, 100, 700])])
-        elif r < 0.86:
+        elif r < 0.83:
             ops.append(['open2', rng.randrange(2), rng.randrange(2)])
+        elif r < 0.87:
+            ops.append(['open_skew', link, rng.randrange(2), 'classic' if classic else 'le_coc'])
         elif r < 0.96 and cuts < 2:
             cuts += 1
             what = rng.choice(['open', 'close', 'data', 'idle'])
@@ -436,6 +438,38 @@ def run_tables(case):
                             sim.loop.settle()
                             ok = _register(cx, 0, s0, k0, t0.result(), b0) and _register(cx, 1, s1, k1, t1.result(), b1)
                     cx.shape.append(('open2', k1))
+            elif kind == 'open_skew':
+                # a refused and a valid open issued at once by the same side: the refused attempt holds the first free CID for a
+                # while, so the valid channel ends up with DIFFERENT CIDs on the two devices
+                _, link, side, ck = op
+                if cx.links[link] is not None:
+                    if ck == 'classic' and not cx.classic(link):
+                        ck = 'le_coc'
+                    peer_node = cx.node(link, 1 - side)
+                    good = (CL_PSMS if ck == 'classic' else LE_PSMS)[0]
+                    bad = CL_PSM_NOSERVER if ck == 'classic' else LE_PSM_NOSERVER
+                    if good in cx.servers[peer_node]:
+                        before = len(cx.accepted[peer_node])
+                        tb = sim.loop.create_task(_open_coro(cx, link, side, ck, bad, 1))
+                        tg = sim.loop.create_task(_open_coro(cx, link, side, ck, good, 1))
+                        st = sim.loop.drive(lambda: tb.done() and tg.done(), 60.0)
+                        if st != 'done':
+                            sim.violation_once('open-hang', f'open-hang:{ck}:{st}', describe_task(tg if not tg.done() else tb))
+                            tb.cancel(); tg.cancel()
+                            ok = False
+                        else:
+                            if not tb.cancelled() and tb.exception() is None:
+                                sim.violation_once('refused-ok', f'open-without-server-succeeded:{ck}', 'no server on that PSM')
+                            if tg.cancelled() or tg.exception() is not None:
+                                sim.violation_once('open-refused', f'open-refused:{ck}:concurrent-with-refused-open:{type(tg.exception()).__name__ if not tg.cancelled() else "cancelled"}', 'open with a listening server failed')
+                                ok = False
+                            else:
+                                sim.loop.settle()
+                                ok = _register(cx, link, side, ck, tg.result(), before)
+                                ch = cx.chans[-1] if ok else None
+                                if ch is not None and ch.ends[0].source_cid != ch.ends[1].source_cid:
+                                    sim.probe('channel_with_different_cids_on_both_sides')
+                        cx.shape.append(('open_skew', ck))
             elif kind == 'cut':
                 ok = _do_cut(cx, op)
             elif kind == 'close_server_then_open':
